@@ -656,9 +656,9 @@ def refine_droplet(
         vmax = np.max(data_mask)
     vrng = vmax - vmin
 
-    if adjust_values and vrng == 0:
-        # without any contrast, the intensities cannot be fitted since the associated
-        # parameter bounds would be degenerate
+    if adjust_values and (vrng == 0 or data_mask.size == 0):
+        # without any contrast (or any data), the intensities cannot be fitted since the
+        # associated parameter bounds would be degenerate
         adjust_values = False
 
     if adjust_values:
